@@ -1,17 +1,19 @@
 #!/bin/sh
-# usage: tools/try_mutant.sh <PROP> <dir-with-patch.diff> [extra env...]
-# applies the patch to /repo, runs the quick check, reverts /repo. Prints verdict.
+# usage: tools/try_mutant.sh <PROP> <dir-with-patch.diff>
+# Applies the patch in a scratch worktree of /repo HEAD (never touches /repo itself), points the
+# check at it through VERIF_REPO, runs the quick check, removes the worktree. Prints the verdict.
 PROP=$1; DIR=$2
-cd /repo || exit 9
-if ! git apply --check "$DIR/patch.diff" 2>/dev/null; then
-  if ! git apply --3way --check "$DIR/patch.diff" 2>/dev/null; then echo "PATCH-DOES-NOT-APPLY $DIR"; exit 8; fi
-  git apply --3way "$DIR/patch.diff" >/dev/null 2>&1; git reset -q
-else
-  git apply "$DIR/patch.diff"
+NAME=$(basename "$DIR")
+WT=/tmp/wt_try_${PROP}_${NAME}_$$
+git -C /repo worktree add -q --detach "$WT" HEAD || exit 9
+if ! git -C "$WT" apply "$DIR/patch.diff" 2>/dev/null; then
+  echo "PATCH-DOES-NOT-APPLY $DIR"; git -C /repo worktree remove --force "$WT"; exit 8
 fi
 cd /verif
-./check "$PROP" --tier quick > "/tmp/mutant_$(basename "$DIR")_$PROP.log" 2>&1
+LOG="/tmp/mutant_${NAME}_$PROP.log"
+VERIF_REPO="$WT" ./check "$PROP" --tier quick > "$LOG" 2>&1
 RC=$?
-git -C /repo checkout -- . 
-echo "mutant $DIR prop=$PROP exit=$RC $(grep -c '^VIOLATION' /tmp/mutant_$(basename "$DIR")_$PROP.log) violation lines"
-grep -E "^VIOLATION|oracle=|HARNESS" "/tmp/mutant_$(basename "$DIR")_$PROP.log" | cut -c1-300 | head -6
+git -C /repo worktree remove --force "$WT"
+echo "mutant $DIR prop=$PROP exit=$RC $(grep -c '^VIOLATION' "$LOG") violation lines"
+grep -E "^VIOLATION|oracle=|HARNESS" "$LOG" | cut -c1-300 | head -6
+exit 0
